@@ -228,6 +228,105 @@ def run_abort(case):
     return Outcome(None, out_of_range or big, labels + ["finite_result"])
 
 
+# ---------------------------------------------------------------- e: call histories
+def strat_hist(tier):
+    base = st.fixed_dictionaries({"kind": st.sampled_from(["sphere", "spheroid", "cylinder"]), "xv": gen.size_param(0.5, 6.0),
+                                  "aspect": st.floats(0.5, 2.0), "mr": gen.rounded(1.1, 1.8, 3), "mi": st.sampled_from([0.0, 0.0, 0.01, 0.1]),
+                                  "rot": st.tuples(st.floats(0, 2 * math.pi), st.floats(0, math.pi), st.floats(0, 2 * math.pi)).map(list)})
+    vary = st.sampled_from(["mi", "mi", "mr", "xv", "aspect", "rot", "nm", "wl", "kind"])
+    return st.fixed_dictionaries({"o": gen.optics(True, pol=st.just([1.0, 0.0])), "base": base, "pts": _pts(3),
+                                  "variants": st.lists(st.tuples(vary, st.floats(0.3, 1.0)), min_size=1, max_size=4).map(lambda l: [list(t) for t in l]),
+                                  "seq": st.lists(st.integers(0, 4), min_size=3, max_size=10),
+                                  "entry": st.sampled_from(["field", "scat_matrix", "lens"])})
+
+
+def _variant(o, base, var):
+    o, b = dict(o), dict(base)
+    if var is None:
+        return o, b
+    what, f = var
+    if what == "mi":
+        b["mi"] = 0.05 * f if base["mi"] == 0 else base["mi"] * (0.2 + 0.5 * f)
+    elif what == "mr":
+        b["mr"] = round(base["mr"] * (1 + 0.1 * f), 4)
+    elif what == "xv":
+        b["xv"] = base["xv"] * (1 + 0.3 * f)
+    elif what == "aspect":
+        b["aspect"] = min(2.0, base["aspect"] * (1 + 0.3 * f))
+    elif what == "rot":
+        b["rot"] = [base["rot"][0], (base["rot"][1] + f) % math.pi, (base["rot"][2] + 2 * f) % (2 * math.pi)]
+    elif what == "nm":
+        o["nm"] = round(o["nm"] * (1 + 0.05 * f), 4)
+    elif what == "wl":
+        o["wl"] = round(o["wl"] * (1 + 0.1 * f), 4)
+    else:
+        b["kind"] = {"sphere": "spheroid", "spheroid": "cylinder", "cylinder": "spheroid"}[base["kind"]]
+    return o, b
+
+
+def _tm_calc(o, b, pts, entry):
+    import holopy as hp
+    from holopy.scattering import calc_field, calc_scat_matrix, Sphere, Tmatrix
+    from holopy.scattering.theory import Lens
+    k = gen.wavevec(o)
+    unit = o["wl"] / o["nm"]
+    n = (complex(b["mr"], b["mi"]) if b["mi"] else b["mr"]) * o["nm"]
+    if b["kind"] == "sphere":
+        r = b["xv"] / k
+        s = Sphere(n=n, r=r, center=(0.2 * unit, -0.1 * unit, r + 60.0 / k))
+    else:
+        c = dict(b, o=o, m=[b["mr"], b["mi"]])
+        s, rmax = _axisym(c, b["rot"], (0, 0, 1))
+        s, rmax = _axisym(c, b["rot"], (0.2 * unit, -0.1 * unit, rmax + 60.0 / k))
+    P = np.array(pts) * unit
+    if entry == "lens":
+        P = P * 0.1
+    det = hp.detector_points(x=P[:, 0], y=P[:, 1], z=0.0)
+    try:
+        if entry == "field":
+            return calc_field(det, s, theory=Tmatrix(), **gen.optics_kwargs(o)).values.tobytes()
+        if entry == "scat_matrix":
+            return calc_scat_matrix(det, s, o["nm"], o["wl"], theory=Tmatrix()).values.tobytes()
+        return calc_field(det, s, theory=Lens(0.7, Tmatrix(), 16, 16), **gen.optics_kwargs(o)).values.tobytes()
+    except Exception as e:
+        return ("EXC:" + type(e).__name__).encode()
+
+
+def run_hist(case):
+    """T-matrix calls for a particle and single-parameter variants of it, in a generated order inside one
+    process: every result must equal the value computed by a child forked before the history started."""
+    import os
+    o, base = case["o"], case["base"]
+    specs = [(_variant(o, base, None))] + [_variant(o, base, v) for v in case["variants"]]
+    seq = [i % len(specs) for i in case["seq"]]
+
+    def pristine(i):
+        r, w = os.pipe()
+        pid = os.fork()
+        if pid == 0:
+            try:
+                os.close(r)
+                with os.fdopen(w, "wb") as fh:
+                    fh.write(_tm_calc(specs[i][0], specs[i][1], case["pts"], case["entry"]))
+            finally:
+                os._exit(0)
+        os.close(w)
+        with os.fdopen(r, "rb") as fh:
+            data = fh.read()
+        os.waitpid(pid, 0)
+        return data
+    ref = {i: pristine(i) for i in set(seq)}
+    labels = [case["entry"], "variants_" + "+".join(sorted({v[0] for v in case["variants"]}))]
+    for step, i in enumerate(seq):
+        got = _tm_calc(specs[i][0], specs[i][1], case["pts"], case["entry"])
+        if got != ref[i]:
+            what = "base particle" if i == 0 else "variant %r" % (case["variants"][i - 1],)
+            prev = None if step == 0 else seq[step - 1]
+            return Outcome(failure("tmatrix_history_dependence", "step %d (%s, after spec %r): result differs from its value in a fresh process" % (step, what, prev),
+                                   entry=case["entry"]), True, labels)
+    return Outcome(None, len(set(seq)) >= 2, labels)
+
+
 SUBCHECKS = [
     Sub("sphere_limit", strat_sphere, run_sphere, 2400, 40000,
         "sphere (or Spheroid r=(a,a) with arbitrary Euler angles incl. out-of-range) x in [0.1,20], polar angle <= 1 rad, "
@@ -244,4 +343,11 @@ SUBCHECKS = [
         "exactly 0/pi/2/pi/3pi/2/2pi-by-rounding; outcome classes finite / Python exception / process died; only the "
         "last (or non-finite without exception) is a violation; non-trivial = angle out of range or x_v > 60",
         isolate=True, tolerances={}, budget_quick=50),
+    Sub("call_history", strat_hist, run_hist, 480, 8000,
+        "a particle (sphere/spheroid/cylinder) and 1-4 single-parameter variants of it (only Im n, only Re n, size, "
+        "aspect, orientation, medium index, wavelength, shape class) evaluated by Tmatrix (field, scattering matrix or "
+        "inside Lens) in a generated order of 3-10 calls within one process; each result must be bit-identical to the "
+        "value from a child forked before the history (Fortran COMMON/SAVE state must not leak); non-trivial = >=2 "
+        "distinct specs in the sequence",
+        isolate=True, tolerances={"equality": "bitwise"}, budget_quick=60),
 ]
